@@ -109,25 +109,37 @@ Definition chk_su (c : gpc) : bool :=
 Definition chk_all (c : gpc) : bool :=
   chk_chol c && chk_predict c && chk_nlml c && chk_cov c && chk_upd c && chk_su c.
 
-(* composite kernels: Matern / warped / product / range *)
-Inductive kspec :=
-  | KM (ibs : list float) (cs : float)
-  | KW (base : kspec) (blocks : list (nat * nat * list float * list float))
-  | KP (k1 : kspec) (d1 : nat) (k2 : kspec)
-  | KR (k : kspec) (start len : nat).
-Fixpoint keval (jit : float) (s : kspec) : vec NumF -> vec NumF -> float :=
-  match s with
-  | KM ibs cs => matern52 NumF ibs cs jit
-  | KW b bl => warped_kernel NumF (keval jit b) jit
-                 (map (fun q => let '(lo, up, a, b') := q in mkW NumF lo up a b') bl)
-  | KP a d1 b => product_kernel NumF (keval jit a) d1 (keval jit b)
-  | KR a st ln => range_kernel NumF (keval jit a) st ln
-  end.
-Definition ccase := (kspec * float * list (list float) * list (list float) * list (list float)
-                     * list (list float) * float)%type.
+(* composite kernels: the kernel expressions of model/GPLin.v (kexpr / keval) evaluated at binary64:
+   forward matrices, diagonal and the diagonal_depends_on_X flag against the real kernel objects *)
+Definition ccase := (kexpr NumF * list (list float) * list (list float) * list (list float)
+                     * list (list float) * list float * bool * float)%type.
 Definition chk_ckernel (c : ccase) : bool :=
-  let '(sp, jit, X, Xt, Kxx, Kxt, tol) := c in
-  mclose tol (kmatrix NumF (keval jit sp) X X) Kxx && mclose tol (kmatrix NumF (keval jit sp) X Xt) Kxt.
+  let '(e, X, Xt, Kxx, Kxt, dg, dep, tol) := c in
+  let k := keval NumF e in
+  mclose tol (kmatrix NumF (k_fwd NumF k) X X) Kxx && mclose tol (kmatrix NumF (k_fwd NumF k) X Xt) Kxt &&
+  vclose tol (kdiagonal NumF k Xt) dg && Bool.eqb (k_dep NumF k) dep.
+
+(* GaussianProcessRegression sequences: the model state machine of model/GPLin.v run on the recorded operations
+   (parameters after fit / reset are oracle values read back from the real model); after every step that
+   computes the state, gpredict is compared with model.predict *)
+Definition sobs := option (list (list float) * list float * float * float).
+Fixpoint chk_steps (jit floor : float) (m : gmodel NumF) (Xt : list (list float))
+         (steps : list (gop NumF * sobs)) : bool :=
+  match steps with
+  | [] => true
+  | (o, obs) :: r =>
+      let m' := gstep NumF jit m o in
+      match obs with
+      | None => true
+      | Some (mu, var, tm, tv) =>
+          match gpredict NumF jit floor m' Xt with
+          | None => false
+          | Some (mu', var') => mclose tm mu' mu && vclose tv var' var
+          end
+      end && chk_steps jit floor m' Xt r
+  end.
+Definition chk_model (c : float * float * gparams NumF * list (list float) * list (gop NumF * sobs)) : bool :=
+  let '(jit, floor, p0, Xt, steps) := c in chk_steps jit floor (mkGM NumF p0 None) Xt steps.
 """
 
 
@@ -771,6 +783,7 @@ def run(ctx, replay=None):
         qspecs = [gplin_composite.gen_seq(rng, k_) for k_ in range(ctx.n(12, 80))]
     cases_k, cases_g, meta, kmeta, jit_cases, jit_meta = [], [], [], [], [], []
     ck_cases, ck_meta = [], []
+    sq_cases, sq_meta = [], []
     import warnings
     with warnings.catch_warnings():
         warnings.simplefilter("ignore")
@@ -796,7 +809,7 @@ def run(ctx, replay=None):
         for fspec in fspecs:
             gplin_composite.run_fit(ctx, fspec)
         for qspec in qspecs:
-            gplin_composite.run_seq(ctx, qspec)
+            gplin_composite.run_seq(ctx, qspec, sq_cases, sq_meta)
     for i in ctx.coq_bad_cases("kernel", IMPORTS, PRELUDE, "chk_kernel", cases_k, shard=40):
         ctx.violation("correspondence", "model Matern-5/2 kernel matrix differs from Matern52.forward/diagonal "
                       "beyond round-off", case=kmeta[i], failing_input=False,
@@ -805,6 +818,10 @@ def run(ctx, replay=None):
         ctx.violation("correspondence", "model composite kernel matrix (warped / product / range) differs from the "
                       "implementation beyond round-off", case=ck_meta[i], failing_input=False,
                       broken="correspondence chk_ckernel (model/GPLin.v warped/product/range kernel)")
+    for i in ctx.coq_bad_cases("modelseq", IMPORTS, PRELUDE, "chk_model", sq_cases, shard=20):
+        ctx.violation("correspondence", "model state machine (gstep / gpredict) and GaussianProcessRegression differ on "
+                      "an operation sequence", case=sq_meta[i], failing_input=False,
+                      broken="correspondence chk_model (model/GPLin.v gstep, gpredict)")
     for i in ctx.coq_bad_cases("jitter", IMPORTS, PRELUDE, "chk_jit", jit_cases, shard=40):
         ctx.violation("correspondence", "model add_diag differs from AddJitterOp's output", case=jit_meta[i],
                       failing_input=False, broken="correspondence chk_jit (model/GPLin.v add_diag)")
